@@ -92,6 +92,17 @@ func c11(e *Env) {
 	if len(sp.auditWrite) == 0 || len(sp.declRename) == 0 {
 		ob4.Unknown("-", "audit write or rename not found in Execute's call tree")
 	}
+	{
+		// "written" = at <final path>.audit.json for every output that is going to be renamed (stream flag false)
+		isAW := nodeSet(sp.auditWrite)
+		for _, s := range sp.auditWrite {
+			if !e.forAllOutputs(ob4, g, s, func(m *core.Node) bool { return isAW[m] }, core.Scenario{FieldLoad: e.assumeStream(false)}, "writing the audit record next to the final path") {
+				break
+			}
+		}
+	}
+	// ---- R5 shared with C10.R5: the record a resumed run reads from disk is complete
+	e.recordCompleteBeforeWrite("R5")
 	ob4b := r.Ob("R4", "audit-builder:Upstream←loaded-record", "Upstream entries take FileIP.AuditInfo() of the input, i.e. the record loaded from disk when the input was not recomputed")
 	if bfn, _ := e.auditBuilder(); bfn != nil {
 		found := false
